@@ -473,6 +473,10 @@ class CorrData(AsciiSerializable, SampledData, Broadcastable):
 
             path_prefix = Path(path_prefix)
 
+            # remove stale files first, never pair new data with old samples
+            for suffix in (".smp", ".cov"):
+                path_prefix.with_suffix(suffix).unlink(missing_ok=True)
+
             write_data(
                 path_prefix.with_suffix(".dat"),
                 self._description_data,
